@@ -190,7 +190,9 @@ class C03(Check):
         'the response charset stays UTF-8 (Content-Type values used by programs carry no other charset)',
         'cookie names/values are SimpleCookie-safe tokens; header names are ASCII tokens (C14/C15 cover the rest)',
         'request.url and html.escape/repr of it are computed by the code under test and shipped to the model',
-        'Accept: application/json (JSON error bodies) is not generated',
+        'JSON error bodies (Accept: application/json) are modelled for errors that carry no exception object; '
+        'a generated request asks for JSON only when no part of its program can raise a plain exception (the '
+        'traceback text of such an error is not modelled)',
         'config: catchall=True, debug=False (defaults, read into Gen/Wsgi.lean)',
         'request methods are the upper-case standard ones',
         'a status given as a string is in the domain only in the documented form "ddd reason" (three ASCII digits, '
@@ -214,6 +216,11 @@ class C03(Check):
         for i in range(n):
             spec = g.app() if rng.random() < .6 else dict(before=[], after=[], errh=[])
             req = g.req()
+            if rng.random() < .04:
+                req['path_ok'] = False                     # outside C03's domain, inside the model's
+            if rng.random() < .3 and zoo.json_safe(spec, req):
+                req['json'] = True
+                stats['json'] = stats.get('json', 0) + 1
             if i % 400 == 7:
                 # the loop bound: an error handler that keeps answering with the same error
                 code = rng.choice([500, 404, 418])
